@@ -209,6 +209,15 @@ func runRPCScript(c *Case, w rpcWeights, trackMeta bool) *rpcRun {
 			op := model.Op{Kind: model.OpUnregister, P: p, Req: g.nextReq(p)}
 			if len(regs) > 0 && chance(r, 80) {
 				rg := pick(r, regs)
+				// prefer a registration whose member is serving a call right now
+				if len(pend) > 0 && chance(r, 50) {
+					pc := pick(r, pend)
+					for _, cand := range regs {
+						if contains(cand.Members, pc.Callee) {
+							rg = cand
+						}
+					}
+				}
 				if chance(r, 70) && len(rg.Members) > 0 {
 					op.P = pick(r, rg.Members)
 					op.Req = g.nextReq(op.P)
@@ -432,3 +441,12 @@ func (rr *rpcRun) sample() any {
 }
 
 var _ = sim.Local
+
+func contains(l []int, x int) bool {
+	for _, v := range l {
+		if v == x {
+			return true
+		}
+	}
+	return false
+}
